@@ -26,7 +26,9 @@ ASSUMPTIONS = [
 REQUIRED_COUNTERS = ["encoded_files_loaded", "fixtures_compared", "unknown_chunk_insertions", "optional_chunk_drops", "cval_truncations", "nested_boundaries"]
 WORKERS = {"quick": 8, "thorough": 16}
 
-UNKNOWN = [(b"ZZZZ", b""), (b"Xy 1", b"\x01\x02\x03"), (b"q___", b"SVOX" + bytes(40))]
+UNKNOWN = [(b"ZZZZ", b""), (b"Xy 1", b"\x01\x02\x03"), (b"q___", b"SVOX" + bytes(40)),
+           # identifiers the format documents as unused by current SunVox: carried by old files, meaning nothing
+           (b"PSYN", bytes(4)), (b"PCTL", b"\x07\0\0\0"), (b"PAMD", bytes(4))]
 
 
 def plan(tier, seed):
@@ -250,7 +252,7 @@ def edits_unknown(res, origin, raw, base_snap, desc, rng, tier):
         if tier == "quick" and nb > 60:
             positions = sorted(set(rng.sample(range(1, nb), 60)) | {1, nb - 1})
         for pos in positions:
-            for cid, pl in (UNKNOWN if tier == "thorough" else [UNKNOWN[(pos + len(path)) % 3]]):
+            for cid, pl in (UNKNOWN if tier == "thorough" else [UNKNOWN[(pos + len(path)) % len(UNKNOWN)]]):
                 new = [(c[0], c[1]) for c in chunks]
                 new.insert(pos, (cid, pl))
                 data = rebuild(top, path, new)
